@@ -382,6 +382,9 @@ func TestC06(t *testing.T) {
 			var op c06Op
 			cur, loaded := state[src]
 			switch {
+			case !loaded && step > 0 && rng.IntN(4) == 0:
+				// an update for a source that has nothing loaded (after a rejected creation, or never created): it loads the rules
+				op = c06Op{Kind: "update", Src: src, V: genVersion(rng, src, nil)}
 			case !loaded:
 				op = c06Op{Kind: "create", Src: src, V: genVersion(rng, src, nil)}
 			case rng.IntN(5) == 0:
